@@ -75,6 +75,7 @@ type JobResult struct {
 	Funcs      []*FuncResult       `json:"funcs"`
 	LoadErrors map[string][]string `json:"load_errors"`
 	Encoded    []string            `json:"encoded"` // functions interpreted
+	Skipped    bool                `json:"skipped,omitempty"` // not run: the check's overall time budget was used up
 	Solver     smt.Stats           `json:"solver"`
 	Solver2    smt.Stats           `json:"solver2"`
 	InitWarn   []string            `json:"init_warnings"`
@@ -215,7 +216,10 @@ func addStats(a, b smt.Stats) smt.Stats {
 }
 
 // RunJobs runs jobs in worker processes (self-exec "vcheck worker"), par at a time.
-func RunJobs(jobs []*Job, par int, workDir string) []*JobResult {
+//
+// deadline (zero = none): jobs that have not started by then are not run and
+// come back with Skipped set; the caller reports them as undecided.
+func RunJobs(jobs []*Job, par int, workDir string, deadline time.Time) []*JobResult {
 	self, _ := os.Executable()
 	results := make([]*JobResult, len(jobs))
 	var wg sync.WaitGroup
@@ -223,6 +227,12 @@ func RunJobs(jobs []*Job, par int, workDir string) []*JobResult {
 	for i, j := range jobs {
 		wg.Add(1)
 		sem <- struct{}{}
+		if !deadline.IsZero() && time.Now().After(deadline) {
+			results[i] = &JobResult{Job: j.Name, Meta: j.Meta, Skipped: true}
+			<-sem
+			wg.Done()
+			continue
+		}
 		go func(i int, j *Job) {
 			defer wg.Done()
 			defer func() { <-sem }()
@@ -234,7 +244,12 @@ func RunJobs(jobs []*Job, par int, workDir string) []*JobResult {
 			cmd.Stderr = os.Stderr
 			cmd.Env = goEnv()
 			err := cmd.Run()
-			r := &JobResult{Job: j.Name, Meta: j.Meta}
+			// (own copy of Meta: shards of one function share their job's map, and
+			// decoding the result writes into it)
+			r := &JobResult{Job: j.Name, Meta: map[string]string{}}
+			for k, v := range j.Meta {
+				r.Meta[k] = v
+			}
 			if data, rerr := os.ReadFile(rf); rerr == nil {
 				if jerr := json.Unmarshal(data, r); jerr != nil {
 					r.Fatal = "bad result: " + jerr.Error()
